@@ -21,6 +21,9 @@ C52S = ["c", 52, 1.0, 0.0, 0.0, 1.0]  # post phase shift
 B100 = ["b", 100, 1.5, 0.0, 0.0]  # Blackman: short fall time
 Z40 = ["c", 40, 0.0, -2.0, 0.0]  # zero amplitude, detuned
 R60 = ["r", 60, 1.0, -1.0, 1.0, PI2]
+# both waveforms shaped: the amplitude ends smoothly at zero (short tail) while the detuning ends / starts far from zero
+BR100 = ["P", ["B", 152, 1.5], ["+", ["C", 100, 0.0], ["C", 52, 10.0]], 0.0]  # flat start, ends high: the detuning decides the fall time
+BD100 = ["P", ["B", 152, 1.5], ["+", ["C", 52, 10.0], ["C", 100, 0.0]], 0.0]  # mirror image: long start buffer, short fall time
 
 
 def timing(g="g", l="l", basis_g="ground-rydberg", basis_l="digital", eom=True, dmm=False, faults=True):
@@ -84,6 +87,8 @@ def fall_tail(g="g", l="l", rise=60, step=1):
         ("add", C52, g),
         ("add", B100, g),
         ("add", C52P, g),
+        ("add", BR100, g),
+        ("add", BD100, g),
         ("delay", r(rise / 2), g),
         ("delay", r(rise), g),
         ("delay", r(rise + rise / 4), g),
